@@ -20,16 +20,20 @@ from vlib import common as C
 
 META = {
     'property_id': 'C14',
-    'technique': 'Lean 4 theorems over all addresses/byte lists/page states about a micro-step model of mProtectCrossPage+WriteTo+genJumpData '
-                 '(PageStart and the 13-byte jump regenerated from the Go source), tied to the real code by a differential run under strace',
+    'technique': 'Lean 4 theorems over all addresses/byte lists/page states and over all histories of install/remove operations about a micro-step model of '
+                 'mProtectCrossPage+WriteTo(+fall-back)+genJumpData+guards/UnpatchAll (PageStart and the 13-byte jump regenerated from the Go source), '
+                 'tied to the real code by a differential run under strace',
     'level': 'proof',
     'level_text': 'Full proof on the model: for every address, every data length (any number of page crossings) and every page-protection state, '
                   'the pages mprotect-ed cover the write and are tight, bytes outside [a,a+n) never change (on every path), the data lands intact, '
                   'no prefix of the mprotect/copy script drops the execute bit, visited pages end r-x and no page is left writable, the copy cannot fault, '
-                  'a function of size <= 13 is refused before any write, and an install/unpatch changes bytes only inside the entry jump / the placeholder body.',
+                  'a function of size <= 13 is refused before any write, and an install/unpatch changes bytes only inside the entry jump / the placeholder body. '
+                  'By induction over ALL histories of Patch/Apply/Unpatch/Restore/Unpatch(fn)/UnpatchAll on several targets (with pages unmapped in between and steps that panic): '
+                  'only entry bytes change, no image page is left writable, saved bytes stay 13. The W^X fall-back is modelled: bytes and final protections are right, x is dropped (known finding).',
     'level_note': 'Explicit hypotheses: the write does not reach the last page of the 64-bit address space (NoWrap; pages_wrapped_empty states what happens otherwise) '
-                  'and the kernel does not refuse mprotect (MappedAll). Outside the model: the fall-back writeTo of mwrite_prot.go taken only when the RWX mprotect is '
-                  'refused (it drops x for the duration), Windows/arm64 writers, instruction fetch of concurrently modified code. "No neighbour byte changes" on real text '
+                  'and the kernel does not refuse mprotect (MappedAll). Known findings (recorded, not repaired): the fall-back of mwrite_prot.go goes through rw- (x dropped) '
+                  'under a W^X policy; the placeholder bound is goom\'s INT3 scan, which over-runs an exact-fill placeholder. Outside the model: GetFuncSize itself (its result is a model input), '
+                  'the relocated length written into a placeholder (C03), generic-target redirection, Windows/arm64 writers, instruction fetch of concurrently modified code. "No neighbour byte changes" on real text '
                   'additionally rests on entry-to-entry distance >= 13, measured on every function of the test binary each run (GetFuncSize over-runs are classified, not relied on). '
                   'Trusted: Lean kernel (propext, Classical.choice, Quot.sound), tools/gen, the kernel spec of mprotect/stores in Model/Mem.lean, strace and /proc/self/maps.',
 }
@@ -104,17 +108,41 @@ def gen_targets_go():
     return '\n'.join(out) + '\n'
 
 
+def probe_env(extra):
+    """environment of a probe: goom's own knobs scrubbed (GOOM_DEBUG turns on instruction dumps that read far beyond the entry)"""
+    env = C.goenv(extra)
+    for k in list(env):
+        if k.startswith('GOOM_') or k in ('GODEBUG', 'GOTRACEBACK', 'GOGC', 'GOMAXPROCS'):
+            del env[k]
+    return env
+
+
 def run_strace(binary, test, ops_path, out_path, tag, timeout=1800):
-    """Run a probe under strace; returns (rc, log, strace-file)."""
-    for p in (out_path, out_path + '.hdr'):
-        if os.path.exists(p):
-            os.remove(p)
+    """Run a probe under strace; returns (rc, log, strace-file).  A run that is killed or times out is repeated ONCE: a
+    crash that reproduces is then judged from its (missing) observations, a hiccup of a loaded machine is not."""
+    import shutil
+    if shutil.which('strace') is None:
+        raise C.Infra('strace is not installed: the mprotect sequences cannot be observed')
     st = os.path.join(C.BUILD, tag + '.strace')
-    env = C.goenv({'VERIF_OPS': ops_path, 'VERIF_OUT': out_path, 'VERIF_SEED': str(C.seed())})
+    env = probe_env({'VERIF_OPS': ops_path, 'VERIF_OUT': out_path, 'VERIF_SEED': str(C.seed())})
     cmd = ['strace', '-f', '-e', 'trace=mprotect', '-e', 'signal=none', '-o', st, binary, '-test.run', '^' + test + '$', '-test.count=1',
            '-test.timeout', f'{timeout}s']
-    p = subprocess.run(cmd, env=env, cwd=C.BUILD, capture_output=True, text=True, timeout=timeout + 60)
-    return p.returncode, p.stdout + p.stderr, st
+    rc, log = 1, ''
+    for attempt in (1, 2):
+        for p in (out_path, out_path + '.hdr', st):
+            if os.path.exists(p):
+                os.remove(p)
+        try:
+            p = subprocess.run(cmd, env=env, cwd=C.BUILD, capture_output=True, text=True, timeout=timeout + 60)
+            rc, log = p.returncode, p.stdout + p.stderr
+        except subprocess.TimeoutExpired as e:
+            rc, log = -9, f'timeout after {timeout + 60}s: {e}'
+        if rc == 0:
+            break
+        C.log(f'C14: probe {tag} ended with rc={rc} (attempt {attempt})')
+    if 'ptrace' in log and 'Operation not permitted' in log:
+        raise C.Infra('strace cannot attach (ptrace not permitted in this environment): ' + log[-400:])
+    return rc, log, st
 
 
 _CALL = re.compile(r'^(\d+)\s+mprotect\((0x[0-9a-f]+|NULL), (\d+), ([A-Z_|]+|0)\)\s+= (-?\d+)(?: (\w+))?')
@@ -399,7 +427,9 @@ def run_text_survey(bins):
     outp = os.path.join(C.BUILD, 'c14.survey.impl')
     if os.path.exists(outp + '.survey'):
         os.remove(outp + '.survey')
-    rc, log = C.run_probe(bins['text'], 'TestVerifC14Text', ops_path, outp)
+    rc, log = C.run_probe(bins['text'], 'TestVerifC14Text', ops_path, outp, env={'GOOM_DEBUG': ''})
+    if rc != 0:      # once more before concluding anything (loaded machine)
+        rc, log = C.run_probe(bins['text'], 'TestVerifC14Text', ops_path, outp, env={'GOOM_DEBUG': ''})
     head = C.read_indexed(outp, 1)[0]
     if rc != 0 or head is None or not os.path.exists(outp + '.survey'):
         raise C.Infra(f'survey probe failed rc={rc}:\n{log[-2000:]}')
@@ -447,6 +477,12 @@ def gen_text_ops(fs, tier, rng):
     for j, p in enumerate(phs):
         for b in (bigs if tier == 'thorough' else [bigs[j % len(bigs)]]):
             ops.append(f"c14.tramp name={b['name']} tramp={p['name']}")
+    # a placeholder of exactly N code bytes with no padding behind it and a neighbour function right after (private mapping)
+    for n in (16, 24, 32, 48, 64, 128):
+        for b in (bigs[:2] if tier == 'quick' else bigs):
+            ops.append(f"c14.tramp name={b['name']} mph={n}")
+    for n in (4, 8, 12, 20, 40):
+        ops.append(f"c14.tramp name={bigs[0]['name']} mph={n} pad=1")
     return ops
 
 
@@ -497,7 +533,8 @@ def oracle_text(op, obs, ph):
         return None
     tramp = op.startswith('c14.tramp')
     if tramp and int(kv.get('stray_dist', '0')):
-        return (f'{kv["stray_dist"]} byte(s) beyond the placeholder\'s own body changed (body = distance to the next symbol {kv["trampdist"]}; '
+        pre = 'KNOWN:placeholder-bound-overrun:' if (' mph=' in op and 'pad=1' not in op and int(kv['trampsize']) > int(kv['trampdist'])) else ''
+        return pre + (f'{kv["stray_dist"]} byte(s) beyond the placeholder\'s own body changed (body = distance to the next symbol {kv["trampdist"]}; '
                 f'goom bounded the write by its own scan, {kv["trampsize"]} bytes)')
     if not tramp and int(op.split()[2]) < 13:
         return f'a function of {op.split()[2]} bytes (too short to hold the 13-byte jump) was patched instead of refused'
@@ -801,14 +838,28 @@ def run(tier):
             why = f'genJumpData accepts a function of {op.split()[1]} bytes, too short to hold the 13-byte jump'
         if why:
             tbad.append((i, op, why))
+    tknown = [b for b in tbad if b[2].startswith('KNOWN:')]
+    tbad = [b for b in tbad if not b[2].startswith('KNOWN:')]
+    for i, op, why in tknown[:1]:
+        _, key, text = why.split(':', 2)
+        out.violation(f'{op[:160]}: {text}', {'kind': 'impl-oracle', 'lane': 'text', 'ops': [op], 'observed': traw[i], 'why': text,
+                                              'how': 'python3 check.py C14 --replay <this file>'}, key=key)
     for i, op, why in tbad[:3]:
         out.violation(f'{op[:160]}: {why}', {'kind': 'impl-oracle', 'lane': 'text', 'ops': [op], 'observed': traw[i] if i >= 0 else head, 'why': why,
                                              'how': 'python3 check.py C14 --replay <this file>'})
     bad += tbad
+    # floors: a lane that silently ran nothing is a machinery failure, not a pass
+    n_wr = sum(1 for i, op in enumerate(ops) if op.startswith('c14.write') and raw[i] is not None and calls[i] is not None)
+    n_fb = sum(1 for i, op in enumerate(ops) if op.startswith('c14.writewx') and impl[i] and impl[i].startswith('res=ok-fallback'))
+    n_ap = sum(1 for l in timpl if l and l.startswith('apply=ok'))
+    if not bad and not tbad and (n_wr < 500 or n_fb < 20 or n_ap < 40 or len(fs) < 1000):
+        raise C.Infra(f'a lane ran (almost) nothing: traced writes={n_wr}, fall-back writes={n_fb}, applied patches={n_ap}, surveyed functions={len(fs)}')
     # history lane
     hops = gen_hist_ops(fs, tier, rng)
     himpl, hmodel, hraw, hwhy, hlog = execute_hist(hops, bins, fs)
     hbad = [(i, op, hwhy[i]) for i, op in enumerate(hops) if hwhy[i]]
+    if not hbad and (len(hops) < 15 or sum((l or '').count('rwx=0') for l in himpl) < 50):
+        raise C.Infra('the history lane ran (almost) nothing')
     for i, op, why in hbad[:3]:
         out.violation(f'{op[:200]}: {why}', {'kind': 'impl-oracle', 'lane': 'history', 'ops': [op], 'observed': hraw[i], 'why': why,
                                              'how': 'python3 check.py C14 --replay <this file>'})
